@@ -77,7 +77,7 @@ def run_shard(ctx):
         if ctx.out_of_time():
             ctx.count("stopped_on_time_budget")
             break
-        cfg = M.gen_config(rng, long_adapters=True)
+        cfg = M.gen_config(rng, long_adapters=True, very_long=0.04)
         ad = M.build(cfg)
         if ad is None:
             ctx.count("config_rejected_or_out_of_domain")
